@@ -137,7 +137,9 @@ func (b *mbuild) get(path []string) *mv {
 	return nil
 }
 
-func (b *mbuild) set(path []string, v *mv) { b.entries = append(b.entries, bentry{append([]string{}, path...), v}) }
+func (b *mbuild) set(path []string, v *mv) {
+	b.entries = append(b.entries, bentry{append([]string{}, path...), v})
+}
 
 func cdPathEq(a, b []string) bool {
 	if len(a) != len(b) {
